@@ -59,6 +59,11 @@ pub struct AisleStats {
     pub lookups_checked: u64,
 }
 
+thread_local! {
+    /// text -> result of its first parse in this process
+    static SEEN_PARSES: std::cell::RefCell<std::collections::HashMap<u64, u64>> = std::cell::RefCell::new(std::collections::HashMap::new());
+}
+
 fn v(class: &str, detail: String) -> Violation {
     Violation { class: class.into(), key: String::new(), phase: "c11".into(), detail }
 }
@@ -197,6 +202,45 @@ fn execute_inner(sc: &AisleScenario) -> (Vec<Violation>, AisleStats) {
         }
         Ok(r) => r,
     };
+    // parse is a function of the text: a second parse right away, and the first parse of the
+    // same text seen earlier in this process (whatever ran in between), must agree
+    {
+        let fp = |r: &Result<AisleConf, AisleConfError>| match r {
+            Ok(c) => format!("Ok {:?}", c.categories),
+            Err(e) => format!("Err {e:?}"),
+        };
+        let first = fp(&parsed);
+        match catch_unwind(AssertUnwindSafe(|| aisle::parse(text))) {
+            Ok(again) => {
+                let second = fp(&again);
+                if second != first {
+                    out.push(v("parse-nondeterministic", format!("two consecutive parses of {text:?} differ: {first} vs {second}")));
+                    return (out, st);
+                }
+            }
+            Err(_) => {
+                let _ = crate::sim::take_last_panic();
+                out.push(v("parse-nondeterministic", format!("the second of two consecutive parses of {text:?} panicked, the first returned {first}")));
+                return (out, st);
+            }
+        }
+        if text.len() <= 64 {
+            let k = fnv(text.as_bytes());
+            let h = fnv(first.as_bytes());
+            let prev = SEEN_PARSES.with(|t| {
+                let mut t = t.borrow_mut();
+                if t.len() < 300_000 {
+                    *t.entry(k).or_insert(h)
+                } else {
+                    t.get(&k).copied().unwrap_or(h)
+                }
+            });
+            if prev != h {
+                out.push(v("parse-nondeterministic", format!("parsing {text:?} now gives {first}, an earlier parse of the same text in this process gave something else (result hash {prev:016x})")));
+                return (out, st);
+            }
+        }
+    }
     let model = model_parse(text);
     let conf = match parsed {
         Err(e) => {
@@ -635,7 +679,7 @@ pub fn worker(a: &Args) -> i32 {
                 if out.samples.len() < 2 && st.parsed_ok && st.ops > 0 {
                     out.samples.push(serde_json::json!({"run_index": i, "run_seed": rs, "scenario": &sc}));
                 }
-                let prov = Provenance { verif_seed: seed, salt, run_index: i, run_seed: rs, worker, workers, sched_index: 0 };
+                let prov = Provenance { verif_seed: seed, salt, run_index: i, run_seed: rs, worker, workers, sched_index: 0, scheds: None };
                 absorb(&mut out, &sc, &st, &viol, a, Some(prov), &replay_dir, &format!("{rs:016x}"));
                 if out.violations.len() >= max_viol {
                     break;
